@@ -851,7 +851,7 @@ def gen_history(r, nsteps=None, two_sided=False):
     return ops
 
 
-def _exec(ops, upto=None, trace=True, return_store=False):
+def _exec(ops, upto=None, trace=True, return_store=False, hook=None):
     """run ops on real objects; returns the trace string (output@store after every step)"""
     store, tr = [], []
     for o in ops:
@@ -944,6 +944,8 @@ def _exec(ops, upto=None, trace=True, return_store=False):
         except Exception as e:
             out = show_exc(e)
         tr.append(out + "@" + "#".join(show_seq(s) for s in store))
+        if hook is not None:
+            hook(store, len(tr) - 1, o)
     if return_store:
         return store, tr
     return "$".join(tr)
@@ -1171,3 +1173,42 @@ def _impl_midi_rt(rels):
 
 Op("midi_roundtrip", _gen_midi_rt, _impl_midi_rt, lambda rels: f"show_seqs (save_load {lit_msgss(rels)})",
    lambda rels: sum(len(t) for t in rels) > 3)
+
+
+# ---------------------------------------------------------------------------------------------- music theory (validates the translator)
+def _gen_mt(r):
+    k = r.choice(["tk", "tk", "pos", "dist", "from"])
+    if k == "tk":
+        return k, r.choice(G.KEYS), r.randint(-40, 40)
+    if k == "pos":
+        return k, r.randint(0, 127), 0
+    if k == "dist":
+        return k, r.randint(0, 127), r.randint(0, 127)
+    return k, r.randint(0, 127), r.randint(-20, 20)
+
+
+def _impl_mt(inp):
+    from scoda.misc.music_theory import Key as K_, CircleOfFifths as C_
+    k, a, b = inp
+    if k == "tk":
+        r = K_.transpose_key(K_[a], b)
+        return "~" if r is None else r.value
+    if k == "pos":
+        return str(C_.get_position(a))
+    if k == "dist":
+        return str(C_.get_distance(a, b))
+    return str(C_.from_distance(a, b))
+
+
+def _coq_mt(inp):
+    k, a, b = inp
+    if k == "tk":
+        return f"show_key (transpose_key K_{a} {z(b)})"
+    if k == "pos":
+        return f"show_opt show_Z (get_position {a})"
+    if k == "dist":
+        return f"show_opt show_Z (get_distance {a} {b})"
+    return f"show_opt show_Z (from_distance {a} {z(b)})"
+
+
+Op("music_theory", _gen_mt, _impl_mt, _coq_mt)
